@@ -1345,7 +1345,14 @@ pub fn divide() -> impl Function {
                     data_type::Float::from_max(-0.0),
                 ),
             ],
-            |x, y| (x / y).clamp(<f64 as Bound>::min(), <f64 as Bound>::max()),
+            |x, y| {
+                // 0 / 0 is not a number: it cannot be the bound of a range
+                if x == 0.0 && y == 0.0 {
+                    0.0
+                } else {
+                    (x / y).clamp(<f64 as Bound>::min(), <f64 as Bound>::max())
+                }
+            },
         ),
     ))
 }
